@@ -27,7 +27,9 @@ RULE = ("one case = one upload through the real Uploader (or one hashutil tag/ke
         "k, N, max_segment_size; distinct = distinct (data seed, size, source, secret, k, n, maxSeg); non-trivial = CHK path or "
         "a literal with non-empty data; plus the same literal-sized uploads (and 56+-byte ones, which must fail) on clients "
         "with zero servers (never had any / all removed / broker emptied), sources Data, FileHandle, FileName, short-reading "
-        "file, chunk lists, with and without convergence secret")
+        "file, chunk lists, with and without convergence secret; plus, for sizes 0,1,54..57,1000,8191..8193,20000,70000,200000, "
+        "FileHandle over BytesIO / a file opened rb (at 0, mid, end) / a just-written unflushed w+b file or TemporaryFile (one "
+        "piece, several pieces, unbuffered, repositioned) / a wrapper without fileno, and FileName: same cap as Data")
 TRUSTED = ["lean/Tahoe/Immutable/Convergence.lean is a hand transcription of hashutil._convergence_hasher_tag / "
            "convergence_hasher, FileHandle._get_encryption_key_convergent/_random and Uploader.upload's LIT/CHK decision",
            "lean/Tahoe/Base/Sha256.lean (executable SHA-256 used only by the driver; compared with hashlib on every case)"]
@@ -384,10 +386,181 @@ def run_noservers(ctx):
         ctx.compare("literal uploads on a client without servers: LIT cap with the data embedded", metas, impl, model)
 
 
+class NoFileno:
+    """file-object wrapper without fileno() (like the SFTP EncryptedTemporaryFile) around any file object"""
+
+    def __init__(self, f):
+        self._f = f
+
+    def seek(self, *a):
+        return self._f.seek(*a)
+
+    def tell(self):
+        return self._f.tell()
+
+    def read(self, *a):
+        return self._f.read(*a)
+
+    def close(self):
+        pass
+
+
+def file_sources(data, rng, workdir, tag):
+    """[(name, make() -> (file object, cleanup))]: every way of handing the same bytes to upload.FileHandle"""
+    import os
+    import tempfile
+    fn = os.path.join(workdir, "c05-src-%s-%d" % (tag, os.getpid()))
+
+    def pieces():
+        out, i = [], 0
+        while i < len(data):
+            step = rng.choice([1, 7, 100, 1000, 4000, 4096, 8192, 10000, 65536])
+            out.append(data[i:i + step])
+            i += step
+        return out
+
+    def write_file(mode_pieces, opener):
+        f = opener()
+        if mode_pieces:
+            for p in pieces():
+                f.write(p)
+        else:
+            f.write(data)
+        return f                       # NOT flushed, NOT rewound: exactly as a caller that just filled it
+
+    def rb():
+        with open(fn, "wb") as w:
+            w.write(data)
+        return open(fn, "rb")
+
+    def rb_at(pos):
+        f = rb()
+        f.seek(pos)
+        return f
+
+    def wplus():
+        return open(fn, "w+b")
+
+    def tmp():
+        return tempfile.TemporaryFile(dir=workdir)
+
+    def after(f, pos):
+        f.seek(pos)
+        return f
+
+    mid = len(data) // 2
+    return fn, [
+        ("BytesIO", lambda: io.BytesIO(data)),
+        ("BytesIO-at-end", lambda: after(io.BytesIO(data), len(data))),
+        ("file-rb", rb),
+        ("file-rb-mid", lambda: rb_at(mid)),
+        ("file-rb-at-end", lambda: rb_at(len(data))),
+        ("file-w+b-onepiece-unflushed", lambda: write_file(False, wplus)),
+        ("file-w+b-pieces-unflushed", lambda: write_file(True, wplus)),
+        ("tempfile-onepiece-unflushed", lambda: write_file(False, tmp)),
+        ("tempfile-pieces-unflushed", lambda: write_file(True, tmp)),
+        ("file-w+b-written-then-mid", lambda: after(write_file(True, wplus), mid)),
+        ("tempfile-unbuffered-pieces", lambda: write_file(True, lambda: tempfile.TemporaryFile(dir=workdir, buffering=0))),
+        ("nofileno-over-unflushed-file", lambda: NoFileno(write_file(True, wplus))),
+        ("nofileno-over-BytesIO", lambda: NoFileno(io.BytesIO(data))),
+    ]
+
+
+def run_sources(ctx):
+    """every way of supplying the same bytes (Data; FileHandle over BytesIO, a file opened 'rb', a just-written unflushed
+    'w+b' file / TemporaryFile in one or several pieces, positioned mid-file or at the end, a wrapper without fileno;
+    FileName) with the same secret and parameters gives the same cap, and the cap downloads to exactly the bytes"""
+    import os
+    import grid
+    import common
+    from allmydata.immutable import upload
+    from allmydata import uri
+    from allmydata.util.consumer import MemoryConsumer
+    rng = ctx.rng
+    thorough = ctx.tier == "thorough"
+    base_sizes = [0, 1, 54, 55, 56, 57, 1000, 8191, 8192, 8193, 20000, 70000, 200000]
+    for gi in range(ctx.budget(3, 12)):
+        k = rng.choice([1, 2, 3])
+        n = rng.randrange(k, k + 3)
+        max_seg = rng.choice([131072, 131072, 1048576, 65536])
+        seed = rng.randrange(1 << 30)
+        with grid.Runtime(seed=seed, policy="random") as rt:
+            g = grid.Grid(grid.fresh_dir("c05s"), rt, num_servers=n, num_clients=1, k=k, happy=1, n=n, max_segment_size=max_seg)
+            try:
+                c = g.clients[0]
+                sizes = list(base_sizes) + [rng.randrange(0, 56), rng.randrange(56, 9000), rng.randrange(9000, 100000)]
+                for size in sizes:
+                    dseed = rng.randrange(1 << 30)
+                    drng = random.Random(dseed)
+                    data = bytes(drng.randrange(256) for _ in range(min(size, 4099)))
+                    data = (data * (size // max(1, len(data)) + 1))[:size]
+                    secret = rng.choice([b"", bytes(drng.randrange(256) for _ in range(16))])
+                    case0 = {"kind": "sources", "size": size, "dseed": dseed, "secret": secret.hex(), "k": k, "n": n,
+                             "maxSeg": max_seg, "seed": seed}
+                    ref = rt.wait(c.upload(upload.Data(data, convergence=secret))).get_uri()
+                    fn, sources = file_sources(data, random.Random(dseed + 3), common.WORK, "a")
+                    picked = sources if (thorough or size in base_sizes) else rng.sample(sources, 5)
+                    todo = [(name, (lambda mk=mk: upload.FileHandle(mk(), convergence=secret)), True) for name, mk in picked]
+
+                    def filename_src():
+                        with open(fn, "wb") as w:
+                            w.write(data)
+                        return upload.FileName(fn, convergence=secret)
+                    todo.append(("FileName", filename_src, False))
+                    for name, mk, is_fh in todo:
+                        case = dict(case0, source=name)
+                        u = None
+                        try:
+                            u = mk()
+                            cap = rt.wait(c.upload(u)).get_uri()
+                        except Exception as ex:
+                            ctx.violation("upload from source %s failed" % name, case,
+                                          "source-upload-failed:%s:%s" % (name, type(ex).__name__), repr(ex)[:300])
+                            continue
+                        finally:
+                            fh = getattr(u, "_filehandle", None)
+                            try:
+                                if fh is not None and is_fh:
+                                    getattr(fh, "_f", fh).close()
+                            except Exception:
+                                pass
+                        ctx.case(("Src", name, size, dseed, secret.hex()) if size else None)
+                        ctx.count("sources:" + name)
+                        if cap != ref:
+                            cu = uri.from_string(cap)
+                            ctx.violation("the same bytes, secret and parameters give a different cap when supplied through %s "
+                                          "than through upload.Data" % name, case, "source-dependent-cap:" + name,
+                                          {"data_cap": ref.decode(), "source_cap": cap.decode(),
+                                           "source_cap_size": cu.get_size(), "size": size})
+                    # the (common) cap must read back to exactly the bytes
+                    refu = uri.from_string(ref)
+                    if size <= 55:
+                        if not isinstance(refu, uri.LiteralFileURI) or refu.data != data:
+                            ctx.violation("literal cap does not embed exactly the data", case0, "lit-cap-size-%d" % size)
+                    else:
+                        mc = MemoryConsumer()
+                        try:
+                            rt.wait(c.create_node_from_uri(ref).read(mc, 0, None))
+                            got = b"".join(mc.chunks)
+                        except Exception as ex:
+                            got = None
+                            ctx.violation("download of the uploaded cap failed", case0, "source-download-failed-" + type(ex).__name__)
+                        if got is not None and got != data:
+                            ctx.violation("the cap does not download to the uploaded bytes", case0, "source-roundtrip",
+                                          {"got_len": len(got), "want_len": len(data)})
+                    try:
+                        os.unlink(fn)
+                    except OSError:
+                        pass
+            finally:
+                g.close()
+
+
 def run(ctx):
     import common
     common.setup_impl_path()
     import grid  # noqa: F401
     run_hashutil(ctx)
+    run_sources(ctx)
     run_noservers(ctx)
     run_uploads(ctx)
